@@ -105,3 +105,140 @@ def c08(ctx):
 
 def c09(ctx):
     return run_json(ctx, "C09")
+
+
+def c10(ctx):
+    """Token-chunk instance with the real query keys, all four query types."""
+    prop = "C10"
+    quick = ctx.tier == "quick"
+    ctx.build_harness()
+    nchunks = 8 if quick else 10
+    _set_const(ctx, "MC_JsonTokens_vec.cfg", "MaxChunks", nchunks)
+    v = ctx.tlc_expect_ok("MC_JsonTokens.tla", "MC_JsonTokens_vec.cfg", timeout=7000, xmx="40g")
+    rep_path = os.path.join(ctx.scratch, "jsonvec.json")
+    ctx.vdrive(["jsonvec", "-in", v["out"], "-out", rep_path, "-seed", ctx.seed, "-variants", 0])
+    rep = ctx.report(rep_path)
+    os.remove(v["out"])
+    if rep["oracle_mismatch"]:
+        raise core.Infra("strict reference disagrees with encoding/json: %s" % rep["oracle_samples"][:3])
+    tdir = os.path.join(ctx.scratch, "traces")
+    os.makedirs(tdir)
+    trep_path = os.path.join(ctx.scratch, "jsontrace.json")
+    ctx.vdrive(["jsontrace", "-outdir", tdir, "-docs", 600 if quick else 12000, "-seed", ctx.seed + 1000, "-out", trep_path,
+                "-shards", core.NCPU, "-parse-every", 8 if quick else 16, "-subtype-only"])
+    trep = ctx.report(trep_path)
+    results = ctx.validate_traces("TraceJson.tla", "TraceJson.cfg", sorted(glob.glob(os.path.join(tdir, "*.ndjson"))))
+    tviol, tdrift = _trace_violations(ctx, results, prop)
+    violations = [x for x in rep["violations"] if x["property"] == prop] + tviol
+    cov = dict(
+        evaluations=rep["evaluations"] + trep["evaluations"],
+        vectors_replayed=rep["extra"]["vectors"],
+        distinct_nontrivial=rep["distinct_nontrivial"],
+        rule="vectors: every sequence of <= %d chunks over {{ }} [ ] , 1 [1] \"type\": \"Feature\" \"log\": \"version\": \"asset\": \"2.0\"} x query type {json, geo, har, gltf} not rejected before its last byte (TLC, no VIEW; invariants C10Pos/C10Neg relate the scanner model to the top-level-member tracker written from the statement); each replayed on json.Parse and the four detectors in whole and truncated mode, and (query json) through Detect comparing the reported class with the tracker's allowed classes. non-trivial = viable prefix of a valid document. traces: %d generated objects with deciding / look-alike members at random positions among siblings of every shape, x up to 48 limits, validated by TraceJson.tla (TC10)" % (nchunks, trep["extra"]["documents"]),
+        exhaustive=True,
+        bounds=dict(max_chunks=nchunks),
+        drift=dict(vector_replay=rep["drift"], samples=rep.get("drift_samples", [])[:5], trace=tdrift),
+        detections=rep["extra"]["detections"] + trep["evaluations"],
+        classes_seen_in_traces=trep["extra"]["classes"],
+        violations_in_vectors=rep["violation_counts"].get(prop, 0),
+        violations_in_traces=len(tviol),
+        samples=rep["samples"][:6] + trep["samples"][:4],
+    )
+    assumptions = ["TLC and the community modules are trusted", "keys and deciding values spelled literally (as the statement says)",
+                   "a deciding member cut by the end of the header makes either classification acceptable"]
+    return core.finish(ctx, violations, cov, assumptions)
+
+
+BOMB_SHAPES = ["arr", "obj", "mixed", "pad"]
+
+
+def c16(ctx):
+    prop = "C16"
+    quick = ctx.tier == "quick"
+    ctx.build_harness()
+    cov = {}
+    # 1. model: stack/level/path bounded by a function of Cap only
+    runs = []
+    for cap, nch in ((2, 11), (3, 11)) if quick else ((2, 13), (3, 13), (4, 12)):
+        _set_const(ctx, "MC_JsonNest.cfg", "Cap", cap)
+        _set_const(ctx, "MC_JsonNest.cfg", "MaxChunks", nch)
+        r = ctx.tlc_expect_ok("MC_JsonNest.tla", "MC_JsonNest.cfg", tag="MC_JsonNest_cap%d" % cap, timeout=3000, xmx="24g")
+        runs.append(dict(cap=cap, max_chunks=nch, distinct=r["distinct"]))
+    cov["model_runs"] = runs
+    # 2. real bombs, one child process per case
+    cap = 4096
+    ns = [cap - 1, cap, cap + 1, cap + 2, 100000, 1000000] + ([10000000] if quick else [10000000, 50000000])
+    cases = []
+    for shape in BOMB_SHAPES:
+        ul = {"arr": 1, "obj": 5, "mixed": 6, "pad": 2}[shape]
+        lv = 2 if shape == "mixed" else 1
+        for n in ns:
+            nn = n // lv if n <= cap + 2 else n
+            if shape == "mixed" and n <= cap + 2:
+                nn = n // 2
+            big = nn >= 10000000
+            for closed in (False, True):
+                for entry in (["Detect"] if big and quick else ["Detect", "DetectReader", "json"]):
+                    limits = [0]
+                    if not big:
+                        limits += [ul * (nn // 2)]
+                    if not quick and entry == "Detect":
+                        limits += [4294967295]
+                    for lim in limits:
+                        cases.append((shape, nn, closed, lim, entry))
+        for entry in ("geo", "har", "gltf", "ndjson"):
+            cases.append((shape, 1000000, True, 0, entry))
+    if not quick:
+        cases.append(("arr", 1000000, True, 4294967295, "DetectReader"))  # 4 GiB buffer, run with the others
+    import concurrent.futures
+    import subprocess
+    exe = ctx.vdrive_bin
+
+    def run(case):
+        shape, n, closed, lim, entry = case
+        cmd = [exe, "bomb", "-shape", shape, "-n", str(n), "-closed=%s" % ("true" if closed else "false"), "-limit", str(lim), "-entry", entry]
+        try:
+            p = subprocess.run(cmd, capture_output=True, text=True, timeout=300)
+        except subprocess.TimeoutExpired:
+            return dict(ev="bomb", shape=shape, n=n, closed=closed, limit=lim, entry=entry, returned=False, maxlvl=0, cls="", parses=0, mime="", wall_ms=300000, died="timeout")
+        if p.returncode == 0 and p.stdout.strip():
+            return json.loads(p.stdout.strip().splitlines()[-1])
+        if p.returncode == 2 and "stack" not in p.stderr and "overflow" not in p.stderr and "signal" not in p.stderr:
+            raise core.Infra("bomb driver failed: %s %s" % (cmd, p.stderr[-500:]))
+        return dict(ev="bomb", shape=shape, n=n, closed=closed, limit=lim, entry=entry, returned=False, maxlvl=0, cls="", parses=0, mime="", wall_ms=0, died=p.stderr[-300:])
+
+    workers = 4 if not quick else core.NCPU
+    with concurrent.futures.ThreadPoolExecutor(max_workers=workers) as ex:
+        recs = list(ex.map(run, cases))
+    tf = os.path.join(ctx.scratch, "bomb.ndjson")
+    with open(tf, "w") as f:
+        for r in recs:
+            f.write(json.dumps({k: v for k, v in r.items() if k != "died"}) + "\n")
+    results = ctx.validate_traces("TraceBomb.tla", "TraceBomb.cfg", [tf])
+    violations = []
+    for r in results:
+        for t in r["tuples"]:
+            if t[0] == "VIOLATION":
+                rec = recs[t[2] - 1]
+                v = dict(property=t[1], kind="bomb", limit=rec["limit"], record=rec,
+                         input_text="shape=%s n=%d closed=%s entry=%s" % (rec["shape"], rec["n"], rec["closed"], rec["entry"]),
+                         detail="TraceBomb.tla: returned=%s maxlvl=%s cls=%r %s" % (rec["returned"], rec["maxlvl"], rec["cls"], rec.get("died", "")))
+                v["key"] = "%s|bomb|%s|%d|%s|%s|%d" % (t[1], rec["shape"], rec["n"], rec["closed"], rec["entry"], rec["limit"])
+                violations.append(v)
+    cov.update(
+        evaluations=len(recs),
+        distinct_nontrivial=len([r for r in recs if r["n"] > cap]),
+        rule="model: all sequences of chunks {[ ] } 1 space {\"k\":} up to the bound for Cap in {2,3(,4)}: frame stack <= 2*Cap+4, level <= Cap+1, path <= Cap+1, nothing deeper than Cap+1 accepted. real code: shapes %s x units {cap-1, cap, cap+1, cap+2, 1e5, 1e6, 1e7%s} x open/closed x limits {0, half%s} x entries {Detect, DetectReader, detector funcs}, each in a child process with a 32 MiB maximum stack; the hook reports the maximum recursion level; records validated by TraceBomb.tla (closed form of the model with the real cap). non-trivial = nesting deeper than the cap" % (BOMB_SHAPES, "" if quick else ", 5e7", "" if quick else ", 2^32-1"),
+        exhaustive=False,
+        max_units=max(r["n"] for r in recs),
+        died=[r for r in recs if not r["returned"]][:5],
+        samples=recs[:3] + recs[-3:],
+    )
+    # C16 owns only its own invariant names; C08/C09 closed-form checks on bombs are reported under C16's evidence
+    # as cross-checks but decided by their own properties.
+    own = [v for v in violations if v["property"] == "C16"]
+    cov["cross_check_failures_other_properties"] = [v["key"] for v in violations if v["property"] != "C16"][:10]
+    return core.finish(ctx, own, cov, ["child process death or timeout counts as 'call without return'", "closed form instantiates invariants established by TLC for small caps"])
+
+
+REGISTRY = {"C08": c08, "C09": c09, "C10": c10, "C16": c16}
